@@ -34,6 +34,7 @@ def sources(ctx):
     map_iters = {}
     env = []
     ptr = []
+    shared = []
     for k, b in facts.bodies.items():
         if b["glue"]:
             continue
@@ -50,6 +51,15 @@ def sources(ctx):
                 rand_callers.setdefault(k, F.site_str(b, t["sp"]))
             if n.startswith(ENV_PREFIXES):
                 env.append((k, F.site_str(b, t["sp"]), n))
+            # state shared between machines of one process: thread-locals, statics behind a lock or atomics. Immutable
+            # lazy_static tables are read through Deref and are not matched here.
+            if n.startswith(("std::thread::LocalKey", "std::thread::local::LocalKey")) or \
+                    (n.startswith(("std::sync::atomic::", "core::sync::atomic::")) and n.rsplit("::", 1)[1] in
+                     ("store", "swap", "fetch_add", "fetch_sub", "fetch_or", "fetch_and", "fetch_xor", "compare_exchange",
+                      "compare_exchange_weak", "fetch_update", "load")) or \
+                    (n.startswith(("std::sync::Mutex", "std::sync::RwLock", "std::sync::OnceLock", "std::sync::poison::mutex::Mutex",
+                                   "std::sync::poison::rwlock::RwLock")) and n.rsplit("::", 1)[1] in ("lock", "write", "read", "get_or_init", "set", "try_lock")):
+                shared.append((k, F.site_str(b, t["sp"]), n.split("::<")[0]))
             if "new_pointer" in n:
                 ptr.append((k, F.site_str(b, t["sp"]), "{:p} formatting"))
             g = " ".join(t["f"].get("gargs", []))
@@ -163,6 +173,12 @@ def sources(ctx):
             ck.ok("C20.sources", inst)
     ck.floor("hash-map iteration sites (positive control)", len(map_iters), 2)
     ck.floor("observable cone", len(cone), 700)
+    for k, site, what in shared:
+        if "__static_ref_initialize" in k or "lazy_static" in k or "lazy::Lazy" in k:
+            continue  # the one-time initialisation of an immutable table
+        ck.violation("C20.sources", "fn=%s" % facts.bodies[owner(k)]["name"], "process-level mutable state: %s" % what, where=site,
+                     what="state shared between independently constructed machines (thread-local / static): one machine's run "
+                          "depends on what another one did")
     for k, site, what in env + ptr:
         ck.violation("C20.sources", "fn=%s" % facts.bodies[owner(k)]["name"], what, where=site,
                      what="process-level nondeterminism source")
